@@ -2,8 +2,9 @@
 import z3
 
 from pyvc.symex import Contract, Loop, spec, View, Outcomes, to_z3, as_real
+from pyvc.symval import Mark
 from pyvc.symval import (TArr, TBool, TFloat, TInt, TObj, TOpaque, TReal, TSeq, TStr, TConst, NR, TOptional, fresh, I, R,
-                         MaybeNone, Func, Opaque, TNone, Module, Ref, ArrC, ListC, DictC, Unsupported, TColl, Obj)
+                         MaybeNone, Func, Opaque, TNone, Module, Ref, ArrC, ListC, DictC, Unsupported, TColl, Obj, SeqC, Bo)
 
 FD = 'andes/variables/dae.py'
 FV = 'andes/core/var.py'
@@ -190,6 +191,105 @@ def link_external_model(pid):
         modifies=['self.*'])
 
 
+def link_external_group(pid):
+    """ExtVar.link_external (source is a Group, flat indexer): the addresses are whatever the group's lookup returns for
+    (src=self.src, idx=<the indexer's entries, in order>, attr='a', allow_none=self.allow_none, default=0); n = len(a)."""
+    M = fresh('M', I)
+    A = fresh('group_get_result', z3.ArraySort(I, R))
+
+    def idx_ok(st, idx):
+        if not isinstance(idx, Ref):
+            return z3.BoolVal(False)
+        c, want = st.content(idx), st.content(st.load('self.indexer.v'))
+        arr = c.arr if isinstance(c, SeqC) else c.vals
+        if arr.sort() != want.arr.sort():
+            return z3.BoolVal(False)
+        k = fresh('k', I)
+        return z3.And(c.n == want.n, z3.ForAll([k], z3.Implies(z3.And(k >= 0, k < want.n), arr[k] == want.arr[k])))
+
+    def get(ex, st, args, kw, node):
+        ok = kw.get('src') == 'v' and kw.get('attr') == 'a' and kw.get('allow_none') is False and kw.get('default') == 0 and not args
+        ex.oblige(st, 'pre@call:group.get(src=self.src,idx=indexer-entries-in-order,attr=a,allow_none=self.allow_none,default=0)',
+                  z3.And(z3.BoolVal(bool(ok)), idx_ok(st, kw.get('idx'))), {})
+        return st.new_ref(ArrC(A, M, None), 'got')
+
+    def get_field(ex, st, args, kw, node):
+        ex.oblige(st, 'pre@call:group.get_field(src=self.src,idx=indexer-entries,field=v_code)',
+                  z3.And(z3.BoolVal(kw.get('src') == 'v' and kw.get('field') == 'v_code'), idx_ok(st, kw.get('idx'))), {})
+        return Mark('vcodes')
+
+    NPCAST = z3.Function('numpy_common_dtype_cast', TStr.sort, TStr.sort)
+
+    def np_array_idx(ex, st, a, kw, node):
+        # np.array over a python list of device indices converts every entry to one common dtype (a list mixing int and str
+        # indices becomes all-str): the entries are not known to be preserved
+        if isinstance(a[0], Ref) and isinstance(st.content(a[0]), SeqC) and st.content(a[0]).arr.sort().range() == TStr.sort:
+            c0 = st.content(a[0])
+            k = fresh('k', I)
+            return st.new_ref(SeqC(z3.Lambda([k], NPCAST(c0.arr[k])), c0.n, None), 'np.array(idx)')
+        return a[0]
+
+    def post(old, new, res):
+        a = new.arr('self.a')
+        k = fresh('k', I)
+        return z3.And(a.n == M, new.z('self.n') == M, z3.ForAll([k], z3.Implies(z3.And(k >= 0, k < M), a.vals[k] == A[k])))
+    c = Contract(
+        FV, 'ExtVar.link_external', pid=pid, params={'self': TObj(), 'ext_model': TObj()},
+        schema={'self.src': TConst('v'), 'self.indexer.v': TSeq(elem=TStr.sort), 'self.indexer.n': TInt(),
+                'self.allow_none': TConst(False), 'self.v_code': TStr(), 'self.a': TArr(kind='int'), 'self.n': TInt(),
+                'self.name': TStr(), 'self.owner.class_name': TStr(), 'ext_model.class_name': TStr(),
+                'self.parent': TOpaque('Any'), 'self._n': TOpaque('Any'), 'self._idx': TOpaque('Any')},
+        requires=[('sizes', lambda v: z3.And(M >= 0, v.arr('self.indexer.v').n == M, v.z('self.indexer.n') == M))],
+        calls={'isinstance:GroupBase': lambda ex, st, a, k, n: True, 'isinstance:(list, np.ndarray)': lambda ex, st, a, k, n: False,
+               'ext_model.get': get, 'ext_model.get_field': get_field, '<value>.astype': lambda ex, st, a, k, n: a[0],
+               'np.array': np_array_idx,
+               '__getitem__': lambda ex, st, a, k, n: a[0] if isinstance(a[0], Mark) else NotImplemented,
+               '__compare__': lambda ex, st, a, k, n: (Mark('cmp') if any(isinstance(x, Mark) for x in a[1:]) else NotImplemented),
+               'all': lambda ex, st, a, k, n: fresh('vcodes_match', Bo)},
+        globals_={'all': Func('all')},
+        ensures=[('a=group.get(...);n=len(a)', post)], allow_raise=['TypeError'],
+        modifies=['self.*'])
+    c.tag = 'group'
+    return c
+
+
+def replay_link_external_group(obligation, model, meta):
+    """native run of the real ExtVar.link_external on a stub group: the idx handed to group.get must be the indexer's entries,
+    unchanged in value and type, for homogeneous and for mixed int/str indices"""
+    from types import SimpleNamespace
+    import numpy as np
+    from andes.core.var import ExtAlgeb
+    from andes.models.group import GroupBase
+    for entries in ([1, 2, 3], ['a', 'b'], [1, 2, 3, 'G4'], ['G1', 2]):
+        seen = {}
+
+        class G(GroupBase):
+            def __init__(self):
+                pass
+
+            def get(self, src, idx, attr='v', allow_none=False, default=0.0):
+                seen['idx'] = list(idx)
+                return np.arange(len(list(idx)))
+
+            def get_field(self, src, idx, field):
+                return ['y'] * len(list(idx))
+        v = ExtAlgeb(model='StubGroup', src='v', indexer=SimpleNamespace(v=list(entries), n=len(entries)))
+        v.owner = SimpleNamespace(class_name='Owner')
+        v.name = 'x'
+        grp = G()
+        try:
+            v.link_external(grp)
+        except Exception as e:      # noqa
+            return {'confirmed': True, 'inputs': {'indexer.v': entries}, 'observed': repr(e),
+                    'native_cmd': 'ExtAlgeb(indexer=<stub>).link_external(<stub group>)'}
+        got = seen.get('idx')
+        if got is None or len(got) != len(entries) or any(isinstance(g, str) != isinstance(e, str) or g != e
+                                                           for g, e in zip(got, entries)):
+            return {'confirmed': True, 'inputs': {'indexer.v': entries}, 'observed': 'group.get received idx=%r' % (got,),
+                    'native_cmd': 'ExtAlgeb(indexer=<stub>).link_external(<stub group>)'}
+    return {'confirmed': False, 'tried': 4}
+
+
 KQ = z3.Int('kq')
 
 
@@ -322,10 +422,23 @@ def set_xy_name(pid):
         nm = to_z3(v.local('name'))
         j = fresh('j', I)
         return z3.ForAll([j], z3.Implies(z3.And(j >= 0, j < k), names.arr[z3.ToInt(a.vals[j])] == name_of(v, nm, j)))
+    def mark(v):
+        v.st.ghost['in_iter'] = True
+        return True
+
+    def var_done(v):
+        # stated on the outer loop so that it is an obligation whatever the shape of the code that writes the names
+        if not v.st.ghost.get('in_iter'):
+            return True
+        a = v.arr(E + '.a')
+        names = v.st.content(v.local('dests')[0])
+        nm = to_z3(v.local('name'))
+        j = fresh('j', I)
+        return z3.ForAll([j], z3.Implies(z3.And(j >= 0, j < N), names.arr[z3.ToInt(a.vals[j])] == name_of(v, nm, j)))
     c = Contract(
         FS, '_set_xy_name', pid=pid,
         params={'mdl': TObj(), 'vars_dict': TColl(keysort=S), 'dests': None},
-        schema={'mdl.class_name': TStr(), 'mdl.idx.v': TSeq(elem=S), E + '.a': TArr(n=N, kind='int'), E + '.tex_name': TStr(),
+        schema={'mdl.class_name': TStr(), 'mdl.idx.v': TSeq(elem=S), E + '.a': TArr(n=N, kind='int'), E + '.tex_name': TStr(), 'mdl.n': TInt(),
                 'x_name': TSeq(elem=S), 'x_tex_name': TSeq(elem=S)},
         requires=[('one-address-per-device', lambda v: z3.And(N >= 0, v.arr('mdl.idx.v').n == N)),
                   ('addresses-distinct-and-in-range (C10 bijection)', lambda v: z3.And(
@@ -335,7 +448,9 @@ def set_xy_name(pid):
                           v.arr(E + '.a').vals[J1] >= 0, z3.ToInt(v.arr(E + '.a').vals[J1]) < v.arr('x_name').n)))))],
         calls={'_append_model_name': append_name},
         globals_={'_append_model_name': Func('_append_model_name')},
-        loops={0: Loop(inv=[], frame=['loc:x_name', 'loc:x_tex_name', '$name', '$item', '$idx_item', '$addr']),
+        loops={0: Loop(inv=[('every-slot-a[j]-of-the-variable-just-processed-is-named-<variable> <device j>', var_done)],
+                       assume=[('mark', mark)],
+                       frame=['loc:x_name', 'loc:x_tex_name', '$name', '$item', '$idx_item', '$addr', 'ghost:in_iter']),
                1: Loop(inv=[('slots-written-so-far-carry-this-variable-and-the-device-idx', inv_inner)],
                        frame=['loc:x_name', 'loc:x_tex_name', '$idx_item', '$addr'])},
         ensures=[], modifies=['x_name', 'x_tex_name'])
@@ -343,6 +458,7 @@ def set_xy_name(pid):
 
     def pre_state(st):
         st.env['dests'] = (st.load('x_name'), st.load('x_tex_name'))
+        st.ghost.pop('in_iter', None)
     c.pre_state = pre_state
     return c
 
